@@ -6,7 +6,7 @@ pub struct SourcePosition { pub index: usize, pub line: usize, pub column: usize
 impl Clone for SourcePosition { fn clone(&self) -> (r: Self) ensures r == *self { SourcePosition { index: self.index, line: self.line, column: self.column } } }
 #[verifier::external_body] pub struct Token { _p: u8 }
 // projection of TokenizerError (variants checked at extraction)
-pub enum TokenizerError { MissingHereTagForDocumentBody, MissingHereTag(String), UnterminatedHereDocuments(String, String), Other }
+pub enum TokenizerError { MissingHereTagForDocumentBody, MissingHereTag(String), UnterminatedHereDocuments(String, String), UnterminatedExpansion, Other }
 pub enum QuoteMode { None, AnsiC(SourcePosition), Single(SourcePosition), Double(SourcePosition) }
 
 // stubs read off their bodies
@@ -43,11 +43,18 @@ impl TokenParseState {
     #[verifier::external_body]
     pub fn is_newline(&self) -> (r: bool) ensures r == (self.token_so_far@ == seq!['\n']) { unimplemented!() }
     #[verifier::external_body]
+    pub fn append_char(&mut self, c: char) ensures final(self).token_so_far@ == old(self).token_so_far@.push(c) { unimplemented!() }
+    #[verifier::external_body]
     pub fn append_str(&mut self, s: &str) ensures final(self).token_so_far@ == old(self).token_so_far@ + s@ { unimplemented!() }
     #[verifier::external_body]
     pub fn replace_with_here_doc(&mut self, s: String) ensures final(self).token_so_far == s { unimplemented!() }
 }
 pub struct Tokenizer { pub cross_state: CrossTokenParseState }
+impl Tokenizer {
+    // next_char: the next character of the input, None at its end (reader errors are Err)
+    #[verifier::external_body]
+    pub fn next_char(&mut self) -> (r: Result<Option<char>, TokenizerError>) ensures final(self).cross_state.current_here_tags == old(self).cross_state.current_here_tags { unimplemented!() }
+}
 // R17: Cow<str> is erased to String; `.into()` on a String / &str becomes `.vx_owned()` (same characters)
 pub trait VxOwned { spec fn vx_view(&self) -> Seq<char>; fn vx_owned(self) -> (r: String) ensures r@ == self.vx_view(); }
 impl VxOwned for String { open spec fn vx_view(&self) -> Seq<char> { self@ } #[verifier::external_body] fn vx_owned(self) -> (r: String) { self } }
